@@ -185,6 +185,8 @@ def gen_case(rng, tier):
 async def _run(rng, cfg, specs):
     from ..pair import Pair
     p = Pair(rng, cfg)
+    # virtual time is free: a slow link (50 ms per 4-byte chunk) may need hours of it for a 70 kB payload
+    p.driver.horizon = 1.0e6
     await p.start()
     await p.run_specs(specs)
     await p.close()
